@@ -37,7 +37,7 @@ def _impls():
 
     return [
         ("c_rain", cfast.rainflow),
-        ("c_rain_twopass", cslow.rainflow),
+    ] + ([("c_rain_twopass", cslow.rainflow)] if cslow is not None else []) + [
         ("py_rain", py_rain.rainflow),
         ("cyclecount.rainflow[np]", cc_np),
         ("cyclecount.rainflow[pandas]", cc_pd),
